@@ -44,8 +44,9 @@ ASSUME = ["Haldane (no interference) meiosis; genetic positions in Morgans; unli
           "numpy.random.Generator.uniform(0,1) is uniform (L4 weights are the interval lengths)",
           "numpy.empty may hold any value: float arrays allocated with numpy.empty inside the library call are "
           "NaN-poisoned by the harness so that reads of never-written entries are deterministic",
-          "at m = 4 (thorough) populations are enumerated up to the allele-relabelling symmetry (taxon 0 = 0000); "
-          "all smaller scopes are complete",
+          "population spaces marked 'flip' in bounds.L1_population_spaces (4-way n=3 m=3 and dihybrid n=2 m=3 in the quick "
+          "tier; m=4 in the thorough tier) are enumerated up to the allele-relabelling symmetry (copy 0 of taxon 0 = 0..0); "
+          "all spaces marked 'full' are complete",
           "mc/compat.py restores removed numpy names only"]
 
 SCHEMES = ("2way", "3way", "4way", "dihybrid")
